@@ -6,7 +6,7 @@ import glob, json, os, re, subprocess, sys, time
 HERE = os.path.dirname(os.path.dirname(os.path.abspath(__file__)))
 # target checkout: /repo itself, or a scratch `git worktree` of it (SEED_REPO) so that /repo stays free for other runs
 REPO = os.environ.get('SEED_REPO', '/repo')
-EXTRA = {'C01-7': ['C18'], 'C06-7': ['C18'], 'C07-7': ['C18'], 'C06-2': ['C10'], 'C06-1': ['C14'], 'C11-1': ['C05']}
+EXTRA = {'C03-7': ['C15'], 'C04-7': ['C16'], 'C11-7': ['C16', 'C17'], 'C01-7': ['C18'], 'C06-7': ['C18'], 'C07-7': ['C18'], 'C06-2': ['C10'], 'C06-1': ['C14'], 'C11-1': ['C05']}
 
 
 def sh(cmd, cwd=None, timeout=None, env=None):
